@@ -151,7 +151,7 @@ pub fn setup(tr: &mut Tracer, w: &mut World, rng: &mut Rng) {
         tr.step(w, &Op::Vamm { sender: ID_OWNER, v, m: VMsg::SetOpen(true) });
     }
     // oracle: spot price of the first vAMM
-    let spot = w.d.vamms[0].q * d / w.d.vamms[0].b;
+    let spot = match w.d.vamms[0].q.checked_mul(d) { Some(x) => x / w.d.vamms[0].b, None => w.d.vamms[0].q / w.d.vamms[0].b * d };
     tr.step(w, &Op::Feed { sender: ID_OWNER, m: PMsg::Append { price: spot, t: bi.time.seconds() } });
     let rich = 10_000_000u128 * d;
     for t in TRADERS.iter().chain([LIQUIDATOR].iter()) {
@@ -206,7 +206,7 @@ pub fn open_funds_cw20_detail(w: &World, v: u32, t: u32, side: &Side, margin: u1
     let pos = w.position(v, t);
     let increase = match &pos {
         None => true,
-        Some(p) => (p.direction == mv::Direction::AddToAmm) == (*side == Side::Buy),
+        Some(p) => p.size.value.is_zero() || (p.direction == mv::Direction::AddToAmm) == (*side == Side::Buy),
     };
     let sm = |n: u128| -> u128 { if lev == 0 { 0 } else { n.checked_mul(d).map(|x| x / lev).unwrap_or(0) } };
     if increase { return (sm(on) + fees, None); }
